@@ -1,4 +1,5 @@
 import Eru.Lock.Spec
+import Eru.Lock.Ctx
 import Eru.Lock.ProofsRedis
 import Eru.Lock.ProofsEtcd
 /- The specification the oracle evaluates on the implementation's results holds of the models' own
@@ -533,5 +534,818 @@ theorem jr_replay {p : Redis.Params} (hp : 0 < p.wait) : ∀ (cs : List Redis.Cm
     intro st s j hr
     simp only [specReplayRedis]
     exact ih _ _ (jr_step j hr c) (Redis.exec_reach hp hr c)
+
+end Eru.Lock.Spec
+
+/-! ### etcd -/
+namespace Eru.Lock.Spec
+open Eru.Lock
+
+/-- the spec's book agrees with the etcd model state -/
+structure JE (p : Etcd.Params) (st : SpecSt) (s : Etcd.State) : Prop where
+  hold : ∀ h ∈ st.holders, s.phase h.1 = .holding ∧ (h.1 ∉ st.lost → s.leaseAlive h.1 = true) ∧
+    (h.1 ∈ st.lost → s.ctx h.1 = .cancelled)
+  lostDead : ∀ c ∈ st.lost, s.leaseAlive c = false
+  keys : ∀ k ∈ s.keys, (s.phase k.1 = .holding ∧ (∃ t, (k.1, t) ∈ st.holders) ∧ k.1 ∉ st.lost) ∨
+    ((∃ dl, s.phase k.1 = .waiting dl) ∧ k.1 ∈ st.queued)
+  pend : ∀ c ∈ st.queued, c ∉ st.stale → ∃ dl, s.phase c = .waiting dl ∧ dl + st.slept = s.wall + p.ttl + sinceOf st c ∧
+    (c ∉ st.lost → (c, s.myRev c) ∈ s.keys)
+  clean : st.viol = []
+
+/-- an older key in the queue means: somebody of the book is inside with a live lease, or a waiter
+    of the book is ahead -/
+theorem older_key_excuses {p : Etcd.Params} {st : SpecSt} {s : Etcd.State} (j : JE p st s) (c : Nat)
+    (k : Nat × Nat) (hk : k ∈ s.keys) (hne : k.1 ≠ c) :
+    (liveOthers false p.ttl st c).isEmpty = false ∨ (st.queued.filter (· != c)).isEmpty = false := by
+  rcases j.keys k hk with ⟨_, ⟨t, ht⟩, hnl⟩ | ⟨_, hq⟩
+  · left
+    have hm : (k.1, t) ∈ liveOthers false p.ttl st c := by
+      simp only [liveOthers, List.mem_filter, withinLease, Bool.false_eq_true, if_false, Bool.and_eq_true, bne_iff_ne, ne_eq,
+        Bool.not_eq_true']
+      exact ⟨ht, hne, by simpa using hnl⟩
+    cases hl : liveOthers false p.ttl st c with
+    | nil => rw [hl] at hm; cases hm
+    | cons _ _ => rfl
+  · right
+    have hm : k.1 ∈ st.queued.filter (· != c) := List.mem_filter.mpr ⟨hq, by simpa using hne⟩
+    cases hl : st.queued.filter (· != c) with
+    | nil => rw [hl] at hm; cases hm
+    | cons _ _ => rfl
+
+theorem excused_not_wrong (ttl wait iv : Nat) (st : SpecSt) (c : SCmd)
+    (h : (liveOthers false ttl st c.c).isEmpty = false ∨ (st.queued.filter (· != c.c)).isEmpty = false) :
+    wronglyRefused false ttl wait iv st c = false := by
+  unfold wronglyRefused
+  rcases h with h | h <;> simp [h]
+
+/-- nobody else of the book is inside with a live lease when `c` holds with a live lease -/
+theorem holder_noLiveOthers {p : Etcd.Params} {st : SpecSt} {s s' : Etcd.State} (j : JE p st s)
+    (hr' : Etcd.Reach p s') (c : Nat) (hc : s'.phase c = .holding) (hl : s'.leaseAlive c = true)
+    (hfr : ∀ k, k ≠ c → s'.phase k = s.phase k ∧ s'.leaseAlive k = s.leaseAlive k) :
+    liveOthers false p.ttl st c = [] := by
+  apply List.filter_eq_nil_iff.mpr
+  intro h hh
+  simp only [withinLease, Bool.false_eq_true, if_false, Bool.and_eq_true, bne_iff_ne, ne_eq, Bool.not_eq_true',
+    not_and]
+  intro hne hnl
+  obtain ⟨hp, ha, _⟩ := j.hold h hh
+  have hnl' : h.1 ∉ st.lost := by simpa using hnl
+  have := Etcd.live_holders_eq (Etcd.inv_reach hr') (i := h.1) (j := c)
+    (by rw [(hfr _ hne).1]; exact hp) hc (by rw [(hfr _ hne).2]; exact ha hnl') hl
+  exact hne this
+
+theorem not_holder_of_phase {p : Etcd.Params} {st : SpecSt} {s : Etcd.State} (j : JE p st s) (c : Nat)
+    (hc : s.phase c ≠ .holding) : st.holders.any (·.1 == c) = false := by
+  apply Bool.eq_false_iff.mpr
+  intro ha
+  obtain ⟨h, hh, e⟩ := List.any_eq_true.mp ha
+  have : h.1 = c := by simpa using e
+  exact hc (this ▸ (j.hold h hh).1)
+
+theorem sinceOf_cons_self (st' : SpecSt) (c v : Nat) (l : List (Nat × Nat)) (h : st'.since = (c, v) :: l) :
+    sinceOf st' c = v := by
+  simp [sinceOf, h]
+
+theorem sinceOf_cons_other (st st' : SpecSt) (c q v : Nat) (h : st'.since = (c, v) :: st.since) (hne : q ≠ c) :
+    sinceOf st' q = sinceOf st q := by
+  simp [sinceOf, h, hne.symm]
+
+end Eru.Lock.Spec
+
+namespace Eru.Lock.Spec
+open Eru.Lock
+
+/-- client `c` (not holding before) becomes the holder -/
+theorem je_acquired {p : Etcd.Params} {st st' : SpecSt} {s s' : Etcd.State} (j : JE p st s) (hr' : Etcd.Reach p s')
+    (c : Nat) (hnot : s.phase c ≠ .holding) (hc : s'.phase c = .holding) (hl : s'.leaseAlive c = true)
+    (hcl : c ∉ st.lost) (hla : s'.leaseAlive = s.leaseAlive)
+    (hfr : ∀ k, k ≠ c → s'.phase k = s.phase k ∧ s'.ctx k = s.ctx k)
+    (hkeys : ∀ k ∈ s'.keys, k.1 = c ∨ k ∈ s.keys)
+    (h1 : st'.holders = (c, st.now) :: st.holders) (h2 : st'.lost = st.lost)
+    (h3 : st'.viol = st.viol ++ (if (liveOthers false p.ttl st c).isEmpty then [] else [tagTwoHolders]))
+    (h4 : st'.queued = st.queued.filter (· != c))
+    (h5 : ∀ q ∈ st'.queued, q ∉ st'.stale → ∃ dl, s'.phase q = .waiting dl ∧
+      dl + st'.slept = s'.wall + p.ttl + sinceOf st' q ∧ (q ∉ st'.lost → (q, s'.myRev q) ∈ s'.keys)) :
+    JE p st' s' := by
+  have hlive := holder_noLiveOthers j hr' c hc hl (fun k hk => ⟨(hfr k hk).1, by rw [hla]⟩)
+  refine ⟨?_, ?_, ?_, h5, ?_⟩
+  · intro h hh
+    rw [h1] at hh; rw [h2]
+    rcases List.mem_cons.mp hh with e | hh'
+    · subst e; exact ⟨hc, fun _ => hl, fun hm => absurd hm hcl⟩
+    · obtain ⟨a, b, d⟩ := j.hold h hh'
+      have hne : h.1 ≠ c := by intro e; rw [e] at a; exact hnot a
+      exact ⟨by rw [(hfr _ hne).1]; exact a, by rw [hla]; exact b, by rw [(hfr _ hne).2]; exact d⟩
+  · intro x hx; rw [h2] at hx; rw [hla]; exact j.lostDead x hx
+  · intro k hk
+    by_cases hkc : k.1 = c
+    · left; rw [hkc]; exact ⟨hc, ⟨st.now, by rw [h1]; exact List.mem_cons_self⟩, by rw [h2]; exact hcl⟩
+    · have hk' := (hkeys k hk).resolve_left hkc
+      rcases j.keys k hk' with ⟨a, ⟨t, ht⟩, b⟩ | ⟨⟨dl, a⟩, b⟩
+      · left; exact ⟨by rw [(hfr _ hkc).1]; exact a, ⟨t, by rw [h1]; exact List.mem_cons_of_mem _ ht⟩, by rw [h2]; exact b⟩
+      · right; exact ⟨⟨dl, by rw [(hfr _ hkc).1]; exact a⟩, by rw [h4]; exact List.mem_filter.mpr ⟨b, by simpa using hkc⟩⟩
+  · rw [h3, hlive, j.clean]; rfl
+
+/-- client `c`, not a holder, ends in a phase without keys (failed): its keys are gone, the rest is
+    as before -/
+theorem je_dropped {p : Etcd.Params} {st st' : SpecSt} {s s' : Etcd.State} (j : JE p st s)
+    (c : Nat) (hnot : s.phase c ≠ .holding)
+    (hla : s'.leaseAlive = s.leaseAlive)
+    (hfr : ∀ k, k ≠ c → s'.phase k = s.phase k ∧ s'.ctx k = s.ctx k)
+    (hkeys : ∀ k ∈ s'.keys, k ∈ s.keys ∧ k.1 ≠ c)
+    (h1 : st'.holders = st.holders) (h2 : st'.lost = st.lost) (h3 : st'.viol = [])
+    (h4 : ∀ q ∈ st.queued, q ≠ c → q ∈ st'.queued)
+    (h5 : ∀ q ∈ st'.queued, q ∉ st'.stale → ∃ dl, s'.phase q = .waiting dl ∧
+      dl + st'.slept = s'.wall + p.ttl + sinceOf st' q ∧ (q ∉ st'.lost → (q, s'.myRev q) ∈ s'.keys)) :
+    JE p st' s' := by
+  refine ⟨?_, ?_, ?_, h5, h3⟩
+  · intro h hh
+    rw [h1] at hh; rw [h2]
+    obtain ⟨a, b, d⟩ := j.hold h hh
+    have hne : h.1 ≠ c := by intro e; rw [e] at a; exact hnot a
+    exact ⟨by rw [(hfr _ hne).1]; exact a, by rw [hla]; exact b, by rw [(hfr _ hne).2]; exact d⟩
+  · intro x hx; rw [h2] at hx; rw [hla]; exact j.lostDead x hx
+  · intro k hk
+    obtain ⟨hk', hkc⟩ := hkeys k hk
+    rcases j.keys k hk' with ⟨a, ⟨t, ht⟩, b⟩ | ⟨⟨dl, a⟩, b⟩
+    · left; exact ⟨by rw [(hfr _ hkc).1]; exact a, ⟨t, by rw [h1]; exact ht⟩, by rw [h2]; exact b⟩
+    · right; exact ⟨⟨dl, by rw [(hfr _ hkc).1]; exact a⟩, h4 _ b hkc⟩
+
+/-- pending waiters other than `c` when clocks, phases, revisions and keys of the others are untouched -/
+theorem pendE_frame {p : Etcd.Params} {st : SpecSt} {s s' : Etcd.State} (j : JE p st s) (c : Nat)
+    (hw : s'.wall = s.wall) (hfr : ∀ k, k ≠ c → s'.phase k = s.phase k ∧ s'.myRev k = s.myRev k)
+    (hkeep : ∀ k ∈ s.keys, k.1 ≠ c → k ∈ s'.keys) :
+    ∀ q ∈ st.queued, q ≠ c → q ∉ st.stale → ∃ dl, s'.phase q = .waiting dl ∧
+      dl + st.slept = s'.wall + p.ttl + sinceOf st q ∧ (q ∉ st.lost → (q, s'.myRev q) ∈ s'.keys) := by
+  intro q hq hne hs
+  obtain ⟨dl, a, b, d⟩ := j.pend q hq hs
+  exact ⟨dl, by rw [(hfr q hne).1]; exact a, by rw [hw]; exact b,
+    fun hl => by rw [(hfr q hne).2]; exact hkeep _ (d hl) hne⟩
+
+theorem refusedViol_noneE (ttl wait iv : Nat) (st : SpecSt) (c : SCmd)
+    (h : wronglyRefused false ttl wait iv st c = false) : refusedViol false ttl wait iv st c .none = [] :=
+  refusedViol_none false ttl wait iv st c h
+
+end Eru.Lock.Spec
+
+namespace Eru.Lock.Spec
+open Eru.Lock
+
+/-- what `expireWaiters` may have done to a state -/
+structure EW (s0 cur : Etcd.State) : Prop where
+  wall : cur.wall = s0.wall
+  la : cur.leaseAlive = s0.leaseAlive
+  ctx : cur.ctx = s0.ctx
+  rev : cur.myRev = s0.myRev
+  ph : ∀ j, cur.phase j = s0.phase j ∨
+    (∃ dl, s0.phase j = .waiting dl ∧ dl ≤ s0.wall ∧ cur.phase j = .failed ∧ ∀ k ∈ cur.keys, k.1 ≠ j)
+  sub : ∀ k ∈ cur.keys, k ∈ s0.keys
+  sup : ∀ k ∈ s0.keys, k ∈ cur.keys ∨ ∃ dl, s0.phase k.1 = .waiting dl ∧ dl ≤ s0.wall
+
+theorem ew_fold (s0 : Etcd.State) : ∀ (l : List Nat) (cur : Etcd.State), EW s0 cur →
+    EW s0 (l.foldl (fun st i => match st.phase i with
+      | .waiting dl => if dl ≤ st.wall then Etcd.abandon st i else st
+      | _ => st) cur) := by
+  intro l
+  induction l with
+  | nil => intro cur h; exact h
+  | cons i l ih =>
+    intro cur h
+    simp only [List.foldl_cons]
+    apply ih
+    split
+    · rename_i dl hi
+      split
+      · rename_i hdl
+        -- i is a waiter of s0 whose deadline has passed
+        have h0 : s0.phase i = .waiting dl := by
+          rcases h.ph i with e | ⟨_, _, _, e, _⟩
+          · rw [← e]; exact hi
+          · rw [hi] at e; cases e
+        refine ⟨h.wall, h.la, h.ctx, h.rev, ?_, ?_, ?_⟩
+        · intro j
+          by_cases hji : j = i
+          · subst hji; right
+            exact ⟨dl, h0, by rw [← h.wall]; exact hdl, by simp [Etcd.abandon, Etcd.upd],
+              fun k hk => (Etcd.mem_dropKeys.mp hk).2⟩
+          · rcases h.ph j with e | ⟨dl', a, b, d, f⟩
+            · left; simp [Etcd.abandon, Etcd.upd, hji, e]
+            · right; exact ⟨dl', a, b, by simp [Etcd.abandon, Etcd.upd, hji, d],
+                fun k hk => f k (Etcd.mem_dropKeys.mp hk).1⟩
+        · intro k hk; exact h.sub k (Etcd.mem_dropKeys.mp hk).1
+        · intro k hk
+          rcases h.sup k hk with a | a
+          · by_cases hki : k.1 = i
+            · right; exact ⟨dl, by rw [hki]; exact h0, by rw [← h.wall]; exact hdl⟩
+            · left; exact Etcd.mem_dropKeys.mpr ⟨a, hki⟩
+          · right; exact a
+      · exact h
+    · exact h
+
+theorem ew_refl (s : Etcd.State) : EW s s :=
+  ⟨rfl, rfl, rfl, rfl, fun _ => Or.inl rfl, fun _ h => h, fun _ h => Or.inl h⟩
+
+end Eru.Lock.Spec
+
+namespace Eru.Lock.Spec
+open Eru.Lock
+
+theorem acq_abandon_frame (ttl : Nat) (s : Etcd.State) (i : Nat) (m : Etcd.Mode) (w : Nat) :
+    let y := Etcd.abandon { Etcd.acquire ttl s i m with wall := w } i
+    y.leaseAlive = s.leaseAlive ∧
+    (∀ k, k ≠ i → y.phase k = s.phase k ∧ y.ctx k = s.ctx k ∧ y.myRev k = s.myRev k) ∧
+    (∀ k ∈ y.keys, k ∈ s.keys ∧ k.1 ≠ i) ∧ (∀ k ∈ s.keys, k.1 ≠ i → k ∈ y.keys) ∧ y.wall = w := by
+  intro y
+  refine ⟨by simp [y, Etcd.abandon, Etcd.acquire_leaseAlive], ?_, ?_, ?_, rfl⟩
+  · intro k hk
+    refine ⟨?_, ?_, ?_⟩
+    · simp [y, Etcd.abandon, Etcd.upd, hk, Etcd.acquire_phase_other _ _ _ _ hk]
+    · simp [y, Etcd.abandon, Etcd.acquire_ctx_other _ _ _ _ hk]
+    · simp [y, Etcd.abandon, Etcd.acquire_myRev, Etcd.upd, hk]
+  · intro k hk
+    obtain ⟨h1, h2⟩ := Etcd.mem_dropKeys.mp hk
+    have : k ∈ (Etcd.acquire ttl s i m).keys := h1
+    rw [Etcd.acquire_keys] at this
+    rcases List.mem_append.mp this with h | h
+    · exact ⟨h, h2⟩
+    · simp at h; subst h; exact absurd rfl h2
+  · intro k hk hne
+    apply Etcd.mem_dropKeys.mpr
+    refine ⟨?_, hne⟩
+    show k ∈ (Etcd.acquire ttl s i m).keys
+    rw [Etcd.acquire_keys]; exact List.mem_append.mpr (Or.inl hk)
+
+/-- a refusal because the new key is not the oldest is excused by the book -/
+theorem notOldest_excuses {p : Etcd.Params} {st : SpecSt} {s : Etcd.State} (j : JE p st s) (inv : Etcd.Inv p s)
+    (i : Nat) (hidle : s.phase i = .idle)
+    (hno : Etcd.oldest (s.keys ++ [(i, s.rev + 1)]) (s.rev + 1) = false) :
+    (liveOthers false p.ttl st i).isEmpty = false ∨ (st.queued.filter (· != i)).isEmpty = false := by
+  have : ∃ k ∈ s.keys ++ [(i, s.rev + 1)], ¬ s.rev + 1 ≤ k.2 := by
+    apply Classical.byContradiction
+    intro hn
+    have : Etcd.oldest (s.keys ++ [(i, s.rev + 1)]) (s.rev + 1) = true := by
+      simp only [Etcd.oldest, List.all_eq_true, decide_eq_true_eq]
+      intro k hk
+      apply Classical.byContradiction
+      intro hlt; exact hn ⟨k, hk, hlt⟩
+    rw [this] at hno; cases hno
+  obtain ⟨k, hk, hlt⟩ := this
+  rcases List.mem_append.mp hk with h | h
+  · exact older_key_excuses j i k h (inv.k4 i hidle k h)
+  · simp at h; subst h; simp at hlt
+
+theorem je_unlock {p : Etcd.Params} (iv : Nat) {st : SpecSt} {s : Etcd.State} (g : Etcd.Good p s) (j : JE p st s) (i : Nat) :
+    JE p (specStep false p.ttl p.ttl iv st (ofEtcd (.unlock i)) (classEtcd (Etcd.exec p.ttl s (.unlock i)).2) .none)
+      (Etcd.exec p.ttl s (.unlock i)).1 := by
+  have hspec : ∀ r, (specStep false p.ttl p.ttl iv st ⟨.unlock, i, 0⟩ r .none) =
+      { st with holders := st.holders.filter (·.1 != i) } := by
+    intro r; cases r <;> simp [specStep, isAcq]
+  have core : (s.phase i = .holding ∨ s.phase i = .failed) →
+      JE p { st with holders := st.holders.filter (·.1 != i) } (Etcd.unlock s i) := by
+    intro hph
+    refine ⟨?_, ?_, ?_, ?_, j.clean⟩
+    · intro h hh
+      obtain ⟨hh1, hh2⟩ := List.mem_filter.mp hh
+      have hne : h.1 ≠ i := by simpa using hh2
+      obtain ⟨a, b, d⟩ := j.hold h hh1
+      exact ⟨by simp [Etcd.unlock, Etcd.upd, hne, a], by simp only [Etcd.unlock, Etcd.upd, hne, if_false]; exact b, d⟩
+    · intro x hx
+      by_cases hxi : x = i
+      · subst hxi; simp [Etcd.unlock, Etcd.upd]
+      · simp only [Etcd.unlock, Etcd.upd, hxi, if_false]; exact j.lostDead x hx
+    · intro k hk
+      obtain ⟨hk1, hne⟩ := Etcd.mem_dropKeys.mp hk
+      rcases j.keys k hk1 with ⟨a, ⟨t, ht⟩, b⟩ | ⟨⟨dl, a⟩, b⟩
+      · left; exact ⟨by simp [Etcd.unlock, Etcd.upd, hne, a], ⟨t, List.mem_filter.mpr ⟨ht, by simpa using hne⟩⟩, b⟩
+      · right; exact ⟨⟨dl, by simp [Etcd.unlock, Etcd.upd, hne, a]⟩, b⟩
+    · intro q hq hs
+      obtain ⟨dl, a, b, d⟩ := j.pend q hq hs
+      have hne : q ≠ i := by
+        intro e; rw [e] at a
+        rcases hph with h | h <;> rw [h] at a <;> cases a
+      exact ⟨dl, by simp [Etcd.unlock, Etcd.upd, hne, a], b, fun hl => Etcd.mem_dropKeys.mpr ⟨d hl, hne⟩⟩
+  simp only [Etcd.exec, ofEtcd, hspec]
+  split
+  · rename_i h; exact core (Or.inl h)
+  · rename_i h; exact core (Or.inr h)
+  · -- nothing happens in the model; the book forgets a client that was no holder anyway
+    rename_i h1 h2
+    refine ⟨fun h hh => j.hold h (List.mem_filter.mp hh).1, j.lostDead, ?_, j.pend, j.clean⟩
+    intro k hk
+    rcases j.keys k hk with ⟨a, ⟨t, ht⟩, b⟩ | hw
+    · have hne : k.1 ≠ i := by intro e; rw [e] at a; exact h1 a
+      left; exact ⟨a, ⟨t, List.mem_filter.mpr ⟨ht, by simpa using hne⟩⟩, b⟩
+    · right; exact hw
+
+theorem je_revoke {p : Etcd.Params} (iv : Nat) {st : SpecSt} {s : Etcd.State} (g : Etcd.Good p s) (j : JE p st s) (i : Nat) :
+    JE p (specStep false p.ttl p.ttl iv st (ofEtcd (.revoke i)) (classEtcd (Etcd.exec p.ttl s (.revoke i)).2) .none)
+      (Etcd.exec p.ttl s (.revoke i)).1 := by
+  have inv := Etcd.inv_reach g.reach
+  have hspec : ∀ r, (specStep false p.ttl p.ttl iv st ⟨.revoke, i, 0⟩ r .none) = { st with lost := i :: st.lost } := by
+    intro r; cases r <;> simp [specStep, isAcq]
+  simp only [Etcd.exec, ofEtcd]
+  split
+  · rename_i hl
+    have hl' : s.leaseAlive i = true := by simpa using hl
+    simp only [hspec]
+    -- the state after the loss (and the watcher, if there is something to tell)
+    let s1 := Etcd.loseLease s i
+    let s2 := if s1.ctx i = .live ∧ s1.locked i = true then Etcd.watch s1 i else s1
+    have e_phase : s2.phase = s.phase := by simp only [s2, s1]; split <;> rfl
+    have e_wall : s2.wall = s.wall := by simp only [s2, s1]; split <;> rfl
+    have e_rev : s2.myRev = s.myRev := by simp only [s2, s1]; split <;> rfl
+    have e_keys : s2.keys = Etcd.dropKeys i s.keys := by simp only [s2, s1]; split <;> rfl
+    have e_la : ∀ k, s2.leaseAlive k = if k = i then false else s.leaseAlive k := by
+      intro k; simp only [s2, s1]; split <;> simp [Etcd.watch, Etcd.loseLease, Etcd.upd]
+    have e_ctx_other : ∀ k, k ≠ i → s2.ctx k = s.ctx k := by
+      intro k hk; simp only [s2, s1]; split <;> simp [Etcd.watch, Etcd.loseLease, Etcd.upd, hk]
+    have e_ctx_self : s.phase i = .holding → s2.ctx i = .cancelled := by
+      intro hp
+      obtain ⟨hlk, hcn⟩ := inv.l1 i hp
+      simp only [s2, s1]
+      split
+      · simp [Etcd.watch, Etcd.upd]
+      · rename_i hn
+        cases hc : s.ctx i with
+        | none => exact absurd hc hcn
+        | cancelled => simp [Etcd.loseLease, hc]
+        | live => exact absurd ⟨by simpa [Etcd.loseLease] using hc, by simpa [Etcd.loseLease] using hlk⟩ hn
+    show JE p { st with lost := i :: st.lost } s2
+    refine ⟨?_, ?_, ?_, ?_, j.clean⟩
+    · intro h hh
+      obtain ⟨a, b, d⟩ := j.hold h hh
+      refine ⟨by rw [e_phase]; exact a, ?_, ?_⟩
+      · intro hnl
+        have hne : h.1 ≠ i := fun e => hnl (by rw [e]; exact List.mem_cons_self)
+        rw [e_la, if_neg hne]; exact b (fun hm => hnl (List.mem_cons_of_mem _ hm))
+      · intro hm
+        by_cases hne : h.1 = i
+        · rw [hne]; exact e_ctx_self (hne ▸ a)
+        · rw [e_ctx_other _ hne]
+          exact d ((List.mem_cons.mp hm).resolve_left hne)
+    · intro x hx
+      rw [e_la]
+      by_cases hxi : x = i
+      · simp [hxi]
+      · rw [if_neg hxi]; exact j.lostDead x ((List.mem_cons.mp hx).resolve_left hxi)
+    · intro k hk
+      rw [e_keys] at hk
+      obtain ⟨hk1, hne⟩ := Etcd.mem_dropKeys.mp hk
+      rw [e_phase]
+      rcases j.keys k hk1 with ⟨a, b, d⟩ | hw
+      · left; exact ⟨a, b, fun hm => d ((List.mem_cons.mp hm).resolve_left hne)⟩
+      · right; exact hw
+    · intro q hq hs
+      obtain ⟨dl, a, b, d⟩ := j.pend q hq hs
+      refine ⟨dl, by rw [e_phase]; exact a, by rw [e_wall]; exact b, ?_⟩
+      intro hnl
+      have hne : q ≠ i := fun e => hnl (by rw [e]; exact List.mem_cons_self)
+      rw [e_rev, e_keys]
+      exact Etcd.mem_dropKeys.mpr ⟨d (fun hm => hnl (List.mem_cons_of_mem _ hm)), hne⟩
+  · rename_i hl
+    have hl' : s.leaseAlive i = false := by simpa using hl
+    simp only [hspec]
+    refine ⟨?_, ?_, ?_, ?_, j.clean⟩
+    · intro h hh
+      obtain ⟨a, b, d⟩ := j.hold h hh
+      refine ⟨a, fun hnl => b (fun hm => hnl (List.mem_cons_of_mem _ hm)), ?_⟩
+      intro hm
+      by_cases hne : h.1 = i
+      · -- a holder with a dead lease is already in the book's lost list
+        by_cases hin : h.1 ∈ st.lost
+        · exact d hin
+        · have := b hin; rw [hne, hl'] at this; cases this
+      · exact d ((List.mem_cons.mp hm).resolve_left hne)
+    · intro x hx
+      rcases List.mem_cons.mp hx with e | hx'
+      · rw [e]; exact hl'
+      · exact j.lostDead x hx'
+    · intro k hk
+      have hne : k.1 ≠ i := by
+        intro e; have := (inv.k3 k hk).2; rw [e, hl'] at this; cases this
+      rcases j.keys k hk with ⟨a, b, d⟩ | hw
+      · left; exact ⟨a, b, fun hm => d ((List.mem_cons.mp hm).resolve_left hne)⟩
+      · right; exact hw
+    · intro q hq hs
+      obtain ⟨dl, a, b, d⟩ := j.pend q hq hs
+      exact ⟨dl, a, b, fun hnl => d (fun hm => hnl (List.mem_cons_of_mem _ hm))⟩
+
+theorem je_observe {p : Etcd.Params} (iv : Nat) {st : SpecSt} {s : Etcd.State} (g : Etcd.Good p s) (j : JE p st s) (i : Nat) :
+    JE p (specStep false p.ttl p.ttl iv st (ofEtcd (.observe i)) (classEtcd (Etcd.exec p.ttl s (.observe i)).2) .none)
+      (Etcd.exec p.ttl s (.observe i)).1 := by
+  have hspec : ∀ r, (specStep false p.ttl p.ttl iv st ⟨.observe, i, 0⟩ r .none) =
+      { st with viol := st.viol ++ observeViol false p.ttl st i r .none } := by
+    intro r; cases r <;> simp [specStep, isAcq]
+  simp only [Etcd.exec, ofEtcd, hspec]
+  refine ⟨j.hold, j.lostDead, j.keys, j.pend, ?_⟩
+  show st.viol ++ observeViol false p.ttl st i _ .none = []
+  rw [j.clean, List.nil_append]
+  unfold observeViol
+  cases hf : st.holders.find? (·.1 == i) with
+  | none => rfl
+  | some h =>
+    have hh : h ∈ st.holders := List.mem_of_find?_eq_some hf
+    have hi : h.1 = i := by simpa using List.find?_some hf
+    obtain ⟨a, b, d⟩ := j.hold h hh
+    simp only [withinLease, Bool.false_eq_true, if_false]
+    by_cases hl : h.1 ∈ st.lost
+    · -- lost: the model has told the holder
+      have hc : s.ctx i = .cancelled := hi ▸ d hl
+      simp [hl, hc, classEtcd]
+    · -- not lost: the context cannot be cancelled
+      have hal : s.leaseAlive i = true := hi ▸ b hl
+      have hnc : s.ctx i ≠ .cancelled := by
+        intro hc
+        have := Etcd.cancelled_implies_lost g.reach i hc
+        rw [hal] at this; cases this
+      cases hc : s.ctx i with
+      | cancelled => exact absurd hc hnc
+      | live => simp [hl, classEtcd]
+      | none => simp [hl, classEtcd]
+
+theorem waitDone_pos (s : Etcd.State) (i : Nat) (h : (i, s.myRev i) ∈ s.keys) :
+    (Etcd.waitDone s i).phase = Etcd.upd s.phase i .holding ∧ (Etcd.waitDone s i).leaseAlive = s.leaseAlive ∧
+    (Etcd.waitDone s i).keys = s.keys ∧ (Etcd.waitDone s i).ctx = Etcd.upd s.ctx i .live := by
+  unfold Etcd.waitDone; rw [if_pos (by simpa using h)]; exact ⟨rfl, rfl, rfl, rfl⟩
+
+theorem waitDone_neg (s : Etcd.State) (i : Nat) (h : (i, s.myRev i) ∉ s.keys) :
+    (Etcd.waitDone s i).phase = Etcd.upd s.phase i .failed ∧ (Etcd.waitDone s i).leaseAlive = s.leaseAlive ∧
+    (Etcd.waitDone s i).keys = s.keys ∧ (Etcd.waitDone s i).ctx = s.ctx := by
+  unfold Etcd.waitDone; rw [if_neg (by simpa using h)]; exact ⟨rfl, rfl, rfl, rfl⟩
+
+/-- a `join` the book would judge is a join of a pending, fresh, not revoked waiter -/
+theorem join_not_wrong (ttl wait iv : Nat) (st : SpecSt) (i : Nat)
+    (h : i ∈ st.queued → i ∉ st.stale → i ∉ st.lost → False) :
+    wronglyRefused false ttl wait iv st ⟨.join, i, 0⟩ = false := by
+  unfold wronglyRefused
+  by_cases h1 : i ∈ st.queued
+  · by_cases h2 : i ∈ st.stale
+    · simp [h2]
+    · by_cases h3 : i ∈ st.lost
+      · simp [h3]
+      · exact (h h1 h2 h3).elim
+  · simp [h1]
+
+theorem je_join {p : Etcd.Params} (iv : Nat) {st : SpecSt} {s : Etcd.State} (g : Etcd.Good p s) (j : JE p st s) (i : Nat) :
+    JE p (specStep false p.ttl p.ttl iv st (ofEtcd (.join i)) (classEtcd (Etcd.exec p.ttl s (.join i)).2) .none)
+      (Etcd.exec p.ttl s (.join i)).1 := by
+  have inv := Etcd.inv_reach g.reach
+  -- a refused join: the waiter leaves the queue of the book, everybody still pending becomes stale
+  have refusedJoin : ∀ (s' : Etcd.State), wronglyRefused false p.ttl p.ttl iv st ⟨.join, i, 0⟩ = false →
+      s.phase i ≠ .holding → s'.leaseAlive = s.leaseAlive →
+      (∀ k, k ≠ i → s'.phase k = s.phase k ∧ s'.ctx k = s.ctx k) →
+      (∀ k ∈ s'.keys, k ∈ s.keys ∧ k.1 ≠ i) →
+      JE p (specStep false p.ttl p.ttl iv st ⟨.join, i, 0⟩ .refused .none) s' := by
+    intro s' hw hnot hla hfr hkeys
+    simp only [specStep, isAcq, refusedViol_noneE _ _ _ _ _ hw, List.append_nil, consumesTime, if_true]
+    refine je_dropped j i hnot hla hfr hkeys rfl rfl j.clean
+      (fun q hq hne => List.mem_filter.mpr ⟨hq, by simpa using hne⟩) ?_
+    intro q hq hs
+    exact absurd (List.mem_append.mpr (Or.inl hq)) hs
+  simp only [Etcd.exec, ofEtcd]
+  split
+  · rename_i dl hi
+    have hnot : s.phase i ≠ .holding := by rw [hi]; intro e; cases e
+    split
+    · rename_i hno
+      have hno' : ∀ k ∈ s.keys, ¬ k.2 < s.myRev i := by
+        intro k hk
+        simp only [Etcd.noOlder, List.all_eq_true, Bool.not_eq_true', decide_eq_false_iff_not] at hno
+        exact hno k hk
+      by_cases hown : s.keys.contains (i, s.myRev i) = true
+      · -- first in the queue with its key still there: acquired
+        have hmem : (i, s.myRev i) ∈ s.keys := by simpa using hown
+        have hl : s.leaseAlive i = true := (inv.k3 _ hmem).2
+        have hnl : i ∉ st.lost := fun hm => by have := j.lostDead i hm; rw [hl] at this; cases this
+        have gw := Etcd.good_waitDone g i dl hi hno'
+        obtain ⟨w1, w2, w3, w4⟩ := waitDone_pos s i hmem
+        have hph : (Etcd.waitDone s i).phase i = .holding := by rw [w1]; simp [Etcd.upd]
+        simp only [hph]
+        show JE p (specStep false p.ttl p.ttl iv st ⟨.join, i, 0⟩ .acquired .none) (Etcd.waitDone s i)
+        rw [specStep_acq _ _ _ _ _ _ _ rfl]
+        simp only [beq_self_eq_true, if_true]
+        have hnew := not_holder_of_phase j i hnot
+        refine je_acquired j gw.reach i hnot hph (by rw [w2]; exact hl) hnl w2 ?_ ?_
+          (by simp [onAcquired, hnew]) rfl (by simp [onAcquired]) (by simp [onAcquired]) ?_
+        · intro k hk; rw [w1, w4]; simp [Etcd.upd, hk]
+        · intro k hk; rw [w3] at hk; exact Or.inr hk
+        · intro q hq hs
+          exact absurd (List.mem_append.mpr (Or.inl hq)) hs
+      · -- its own key is gone (lease lost while waiting): session expired
+        have hmiss : (i, s.myRev i) ∉ s.keys := by simpa using hown
+        obtain ⟨w1, w2, w3, w4⟩ := waitDone_neg s i hmiss
+        have hph : (Etcd.waitDone s i).phase i = .failed := by rw [w1]; simp [Etcd.upd]
+        simp only [hph]
+        show JE p (specStep false p.ttl p.ttl iv st ⟨.join, i, 0⟩ .refused .none) (Etcd.waitDone s i)
+        apply refusedJoin _ _ hnot w2
+        · intro k hk; rw [w1, w4]; simp [Etcd.upd, hk]
+        · intro k hk; rw [w3] at hk
+          refine ⟨hk, fun e => hmiss ?_⟩
+          have := (inv.k3 k hk).1
+          rw [e] at this
+          rw [this, ← e]; exact hk
+        · apply join_not_wrong
+          intro h1 h2 h3
+          obtain ⟨_, _, _, d⟩ := j.pend i h1 h2
+          exact hmiss (d h3)
+    · -- an older key is still there: the waiter runs into its deadline
+      rename_i hno
+      show JE p (specStep false p.ttl p.ttl iv st ⟨.join, i, 0⟩ .refused .none)
+        (Etcd.abandon { s with wall := max s.wall dl } i)
+      apply refusedJoin (Etcd.abandon { s with wall := max s.wall dl } i) _ hnot rfl
+      · intro k hk; simp [Etcd.abandon, Etcd.upd, hk]
+      · intro k hk; exact Etcd.mem_dropKeys.mp hk
+      · have : ∃ k ∈ s.keys, k.2 < s.myRev i := by
+          apply Classical.byContradiction
+          intro hn
+          apply hno
+          simp only [Etcd.noOlder, List.all_eq_true, Bool.not_eq_true', decide_eq_false_iff_not]
+          intro k hk hlt; exact hn ⟨k, hk, hlt⟩
+        obtain ⟨k, hk, hlt⟩ := this
+        have hne : k.1 ≠ i := by
+          intro e
+          have := (inv.k3 k hk).1
+          rw [e] at this; omega
+        exact excused_not_wrong _ _ _ _ ⟨.join, i, 0⟩ (older_key_excuses j i k hk hne)
+  · -- its deadline passed during an earlier sleep
+    rename_i hi
+    have hnot : s.phase i ≠ .holding := by rw [hi]; intro e; cases e
+    show JE p (specStep false p.ttl p.ttl iv st ⟨.join, i, 0⟩ .refused .none) s
+    apply refusedJoin s _ hnot rfl (fun _ _ => ⟨rfl, rfl⟩)
+    · intro k hk
+      refine ⟨hk, fun e => ?_⟩
+      rcases j.keys k hk with ⟨a, _, _⟩ | ⟨⟨dl, a⟩, _⟩ <;> (rw [e, hi] at a; cases a)
+    · apply join_not_wrong
+      intro h1 h2 _
+      obtain ⟨dl, a, _, _⟩ := j.pend i h1 h2
+      rw [hi] at a; cases a
+  · show JE p (specStep false p.ttl p.ttl iv st ⟨.join, i, 0⟩ .other .none) s
+    rw [specStep_other _ _ _ _ _ _ _ rfl]; exact j
+
+theorem je_sleep {p : Etcd.Params} (iv : Nat) {st : SpecSt} {s : Etcd.State} (g : Etcd.Good p s) (j : JE p st s) (dt : Nat) :
+    JE p (specStep false p.ttl p.ttl iv st (ofEtcd (.sleep dt)) (classEtcd (Etcd.exec p.ttl s (.sleep dt)).2) .none)
+      (Etcd.exec p.ttl s (.sleep dt)).1 := by
+  have hspec : ∀ r, (specStep false p.ttl p.ttl iv st ⟨.sleep, 0, dt⟩ r .none) =
+      { st with slept := st.slept + dt,
+                stale := (st.queued.filter fun q => decide (p.ttl + sinceOf st q ≤ st.slept + dt)) ++ st.stale } := by
+    intro r; cases r <;> simp [specStep, isAcq]
+  simp only [Etcd.exec, ofEtcd, hspec, Etcd.expireWaiters]
+  have ew := ew_fold { s with wall := s.wall + dt } (({ s with wall := s.wall + dt } : Etcd.State).keys.map (·.1)) _ (ew_refl _)
+  generalize (List.foldl _ _ _) = fin at ew ⊢
+  have notExpired : ∀ q dl, s.phase q = .waiting dl → dl + st.slept = s.wall + p.ttl + sinceOf st q →
+      ¬ (p.ttl + sinceOf st q ≤ st.slept + dt) → fin.phase q = s.phase q ∧ ¬ (dl ≤ s.wall + dt) := by
+    intro q dl a b hns
+    have hgt : ¬ (dl ≤ s.wall + dt) := by omega
+    rcases ew.ph q with e | ⟨dl', a', b', _, _⟩
+    · exact ⟨e, hgt⟩
+    · have : s.phase q = .waiting dl' := a'
+      rw [a] at this; injection this with this; subst this
+      exact absurd b' hgt
+  refine ⟨?_, ?_, ?_, ?_, j.clean⟩
+  · intro h hh
+    obtain ⟨a, b, d⟩ := j.hold h hh
+    refine ⟨?_, by rw [ew.la]; exact b, by rw [ew.ctx]; exact d⟩
+    rcases ew.ph h.1 with e | ⟨dl', a', _, _, _⟩
+    · rw [e]; exact a
+    · have : s.phase h.1 = .waiting dl' := a'
+      rw [a] at this; cases this
+  · intro x hx; rw [ew.la]; exact j.lostDead x hx
+  · intro k hk
+    have hk0 : k ∈ s.keys := ew.sub k hk
+    have hsame : fin.phase k.1 = s.phase k.1 := by
+      rcases ew.ph k.1 with e | ⟨_, _, _, _, f⟩
+      · exact e
+      · exact absurd rfl (f k hk)
+    rw [hsame]; exact j.keys k hk0
+  · intro q hq hs
+    have hs1 : q ∉ st.stale := fun hm => hs (List.mem_append.mpr (Or.inr hm))
+    have hs2 : ¬ (p.ttl + sinceOf st q ≤ st.slept + dt) := by
+      intro hle
+      exact hs (List.mem_append.mpr (Or.inl (List.mem_filter.mpr ⟨hq, by simpa using hle⟩)))
+    obtain ⟨dl, a, b, d⟩ := j.pend q hq hs1
+    obtain ⟨e1, e2⟩ := notExpired q dl a b hs2
+    refine ⟨dl, by rw [e1]; exact a, ?_, ?_⟩
+    · rw [ew.wall]; show dl + (st.slept + dt) = s.wall + dt + p.ttl + sinceOf st q; omega
+    · intro hl
+      rw [ew.rev]
+      rcases ew.sup _ (d hl) with h | ⟨dl', a', b'⟩
+      · exact h
+      · have : s.phase q = .waiting dl' := a'
+        rw [a] at this; injection this with this; subst this
+        exact absurd b' e2
+
+end Eru.Lock.Spec
+namespace Eru.Lock.Spec
+open Eru.Lock
+
+/-- the etcd model's own results never violate the spec (timing flags: none) -/
+theorem je_step {p : Etcd.Params} (iv : Nat) {st : SpecSt} {s : Etcd.State} (g : Etcd.Good p s) (j : JE p st s)
+    (c : Etcd.Cmd) :
+    JE p (specStep false p.ttl p.ttl iv st (ofEtcd c) (classEtcd (Etcd.exec p.ttl s c).2) .none) (Etcd.exec p.ttl s c).1 := by
+  have inv := Etcd.inv_reach g.reach
+  have same : ∀ (op : Op) (i : Nat), isAcq op = true →
+      JE p (specStep false p.ttl p.ttl iv st ⟨op, i, 0⟩ .other .none) s := by
+    intro op i hop; rw [specStep_other _ _ _ _ _ _ _ hop]; exact j
+  -- the acquiring client becomes the owner at once
+  have acqA : ∀ (op : Op) (i : Nat) (m : Etcd.Mode), isAcq op = true → op ≠ .join →
+      s.phase i = .idle → s.leaseAlive i = true →
+      (Etcd.acquire p.ttl s i m).phase i = .holding →
+      JE p (specStep false p.ttl p.ttl iv st ⟨op, i, 0⟩ .acquired .none) (Etcd.acquire p.ttl s i m) := by
+    intro op i m hop hnj hidle hlease hph
+    have hj : (op == Op.join) = false := by
+      rcases op_of op hop hnj with h | h | h <;> subst h <;> rfl
+    rw [specStep_acq _ _ _ _ _ _ _ hop, hj]
+    simp only [Bool.false_eq_true, if_false]
+    have hnot : s.phase i ≠ .holding := by rw [hidle]; intro e; cases e
+    have hnl : i ∉ st.lost := fun hm => by have := j.lostDead i hm; rw [hlease] at this; cases this
+    have hnew := not_holder_of_phase j i hnot
+    have ga := Etcd.good_acquire g i m hidle hlease
+    refine je_acquired j ga.reach i hnot hph (by rw [Etcd.acquire_leaseAlive]; exact hlease) hnl
+      (Etcd.acquire_leaseAlive _ _ _ _)
+      (fun k hk => ⟨Etcd.acquire_phase_other _ _ _ _ hk, Etcd.acquire_ctx_other _ _ _ _ hk⟩) ?_
+      (by simp [onAcquired, hnew]) rfl (by simp [onAcquired]) (by simp [onAcquired]) ?_
+    · intro k hk
+      rw [Etcd.acquire_keys] at hk
+      rcases List.mem_append.mp hk with h | h
+      · exact Or.inr h
+      · simp at h; subst h; exact Or.inl rfl
+    · intro q hq hs
+      have hq' : q ∈ st.queued ∧ q ≠ i := by
+        simp only [onAcquired, List.mem_filter, bne_iff_ne, ne_eq] at hq; exact hq
+      have hs' : q ∉ st.stale := by simpa [onAcquired] using hs
+      have := pendE_frame (s' := Etcd.acquire p.ttl s i m) j i (Etcd.acquire_wall _ _ _ _)
+        (fun k hk => ⟨Etcd.acquire_phase_other _ _ _ _ hk, by rw [Etcd.acquire_myRev, Etcd.upd_other _ _ hk]⟩)
+        (fun k hk _ => by rw [Etcd.acquire_keys]; exact List.mem_append.mpr (Or.inl hk)) q hq'.1 hq'.2 hs'
+      simpa [onAcquired, sinceOf] using this
+  -- a refused client that leaves nothing behind
+  have refusedDrop : ∀ (op : Op) (i : Nat) (m : Etcd.Mode) (w : Nat), (op = .lock ∨ op = .tryLock) →
+      s.phase i = .idle → Etcd.oldest (s.keys ++ [(i, s.rev + 1)]) (s.rev + 1) = false →
+      (op = .tryLock → w = s.wall) →
+      JE p (specStep false p.ttl p.ttl iv st ⟨op, i, 0⟩ .refused .none)
+        (Etcd.abandon { Etcd.acquire p.ttl s i m with wall := w } i) := by
+    intro op i m w hop hidle hno hw
+    have hnot : s.phase i ≠ .holding := by rw [hidle]; intro e; cases e
+    have hex := excused_not_wrong p.ttl p.ttl iv st ⟨op, i, 0⟩ (notOldest_excuses j inv i hidle hno)
+    obtain ⟨f1, f2, f3, f4, f5⟩ := acq_abandon_frame p.ttl s i m w
+    have hac : isAcq op = true := by rcases hop with h | h <;> subst h <;> rfl
+    simp only [specStep, hac, refusedViol_noneE _ _ _ _ _ hex, List.append_nil]
+    refine je_dropped j i hnot f1 (fun k hk => ⟨(f2 k hk).1, (f2 k hk).2.1⟩) f3 rfl rfl j.clean
+      (fun q hq hne => List.mem_filter.mpr ⟨hq, by simpa using hne⟩) ?_
+    intro q hq hs
+    obtain ⟨hq1, hq2⟩ := List.mem_filter.mp hq
+    have hne : q ≠ i := by simpa using hq2
+    rcases hop with h | h
+    · subst h
+      simp only [consumesTime, if_true] at hs
+      exact absurd (List.mem_append.mpr (Or.inl hq)) hs
+    · subst h
+      simp only [consumesTime, Bool.false_eq_true, if_false] at hs
+      have := pendE_frame (s' := Etcd.abandon { Etcd.acquire p.ttl s i m with wall := w } i) j i (by rw [f5]; exact hw rfl)
+        (fun k hk => ⟨(f2 k hk).1, (f2 k hk).2.2⟩) f4 q hq1 hne hs
+      simpa [sinceOf] using this
+  cases c with
+  | lock i =>
+    simp only [Etcd.exec, ofEtcd]
+    split
+    · rename_i hg
+      have hl : s.leaseAlive i = true := by simpa using hg.2
+      rcases Etcd.acquire_self p.ttl s i .lock with ⟨_, hp, _⟩ | ⟨hno, _, _, ⟨hm, _⟩ | ⟨_, hp⟩⟩
+      · simp only [hp]; exact acqA .lock i .lock rfl (by intro h; cases h) hg.1 hl hp
+      · cases hm
+      · simp only [hp]
+        have := refusedDrop .lock i .lock ((Etcd.acquire p.ttl s i .lock).wall + p.ttl) (Or.inl rfl) hg.1 hno (by intro h; cases h)
+        exact this
+    · exact same .lock i rfl
+  | tryLock i =>
+    simp only [Etcd.exec, ofEtcd]
+    split
+    · rename_i hg
+      have hl : s.leaseAlive i = true := by simpa using hg.2
+      rcases Etcd.acquire_self p.ttl s i .try with ⟨_, hp, _⟩ | ⟨hno, _, _, ⟨_, hp⟩ | ⟨hm, _⟩⟩
+      · simp only [hp]; exact acqA .tryLock i .try rfl (by intro h; cases h) hg.1 hl hp
+      · simp only [hp]
+        have := refusedDrop .tryLock i .try (Etcd.acquire p.ttl s i .try).wall (Or.inr rfl) hg.1 hno
+          (fun _ => Etcd.acquire_wall _ _ _ _)
+        exact this
+      · cases hm
+    · exact same .tryLock i rfl
+  | lockAsync i =>
+    simp only [Etcd.exec, ofEtcd]
+    split
+    · rename_i hg
+      have hl : s.leaseAlive i = true := by simpa using hg.2
+      have hidle := hg.1
+      rcases Etcd.acquire_self p.ttl s i .lock with ⟨_, hp, _⟩ | ⟨hno, hlk, hcx, ⟨hm, _⟩ | ⟨_, hp⟩⟩
+      · simp only [hp]; exact acqA .lockAsync i .lock rfl (by intro h; cases h) hidle hl hp
+      · cases hm
+      · -- queued behind an older key
+        simp only [hp]
+        show JE p (specStep false p.ttl p.ttl iv st ⟨.lockAsync, i, 0⟩ .blocked .none) (Etcd.acquire p.ttl s i .lock)
+        have hnot : s.phase i ≠ .holding := by rw [hidle]; intro e; cases e
+        have hnl : i ∉ st.lost := fun hm => by have := j.lostDead i hm; rw [hl] at this; cases this
+        have hex := notOldest_excuses j inv i hidle hno
+        have hv : (if (liveOthers false p.ttl st i).isEmpty && !(!(st.queued.filter (· != i)).isEmpty) then [tagBlocked] else []) = ([] : List String) := by
+          rcases hex with h | h <;> simp [h]
+        simp only [specStep, isAcq, hv, List.append_nil]
+        refine ⟨?_, ?_, ?_, ?_, j.clean⟩
+        · intro h hh
+          obtain ⟨a, b, d⟩ := j.hold h hh
+          have hne : h.1 ≠ i := by intro e; rw [e] at a; exact hnot a
+          exact ⟨by rw [Etcd.acquire_phase_other _ _ _ _ hne]; exact a, by rw [Etcd.acquire_leaseAlive]; exact b,
+            by rw [Etcd.acquire_ctx_other _ _ _ _ hne]; exact d⟩
+        · intro x hx; rw [Etcd.acquire_leaseAlive]; exact j.lostDead x hx
+        · intro k hk
+          rw [Etcd.acquire_keys] at hk
+          rcases List.mem_append.mp hk with h | h
+          · have hne : k.1 ≠ i := inv.k4 i hidle k h
+            rcases j.keys k h with ⟨a, b, d⟩ | ⟨⟨dl, a⟩, b⟩
+            · left; exact ⟨by rw [Etcd.acquire_phase_other _ _ _ _ hne]; exact a, b, d⟩
+            · right; exact ⟨⟨dl, by rw [Etcd.acquire_phase_other _ _ _ _ hne]; exact a⟩, List.mem_cons_of_mem _ b⟩
+          · simp at h; subst h
+            right; exact ⟨⟨_, hp⟩, List.mem_cons_self⟩
+        · intro q hq hs
+          by_cases hqi : q = i
+          · rw [hqi]
+            refine ⟨_, hp, ?_, fun _ => ?_⟩
+            · rw [sinceOf_cons_self _ i st.slept st.since rfl, Etcd.acquire_wall]
+            · rw [Etcd.acquire_keys, Etcd.acquire_myRev, Etcd.upd_same]
+              exact List.mem_append.mpr (Or.inr (by simp))
+          · have hq' : q ∈ st.queued := (List.mem_cons.mp hq).resolve_left hqi
+            have hs' : q ∉ st.stale := fun hm => hs (List.mem_filter.mpr ⟨hm, by simpa using hqi⟩)
+            have := pendE_frame (s' := Etcd.acquire p.ttl s i .lock) j i (Etcd.acquire_wall _ _ _ _)
+              (fun k hk => ⟨Etcd.acquire_phase_other _ _ _ _ hk, by rw [Etcd.acquire_myRev, Etcd.upd_other _ _ hk]⟩)
+              (fun k hk _ => by rw [Etcd.acquire_keys]; exact List.mem_append.mpr (Or.inl hk)) q hq' hqi hs'
+            rw [sinceOf_cons_other st _ i q st.slept rfl hqi]
+            exact this
+    · exact same .lockAsync i rfl
+  | join i => exact je_join iv g j i
+  | unlock i => exact je_unlock iv g j i
+  | sleep dt => exact je_sleep iv g j dt
+  | revoke i => exact je_revoke iv g j i
+  | observe i => exact je_observe iv g j i
+  | cancelCtx i =>
+    have hspec : ∀ r, (specStep false p.ttl p.ttl iv st ⟨.unknown, i, 0⟩ r .none) = st := by
+      intro r; cases r <;> simp [specStep, isAcq]
+    simp only [Etcd.exec, ofEtcd, hspec]
+    exact j
+
+end Eru.Lock.Spec
+
+namespace Eru.Lock.Spec
+open Eru.Lock
+
+/-- the spec run over the etcd model's own replay (no timing flags) -/
+def specReplayEtcd (p : Etcd.Params) (iv : Nat) : SpecSt → Etcd.State → List Etcd.Cmd → SpecSt
+  | st, _, [] => st
+  | st, s, c :: cs =>
+    let r := Etcd.exec p.ttl s c
+    specReplayEtcd p iv (specStep false p.ttl p.ttl iv st (ofEtcd c) (classEtcd r.2) .none) r.1 cs
+
+theorem je_replay {p : Etcd.Params} (iv : Nat) : ∀ (cs : List Etcd.Cmd) (st : SpecSt) (s : Etcd.State),
+    JE p st s → Etcd.Good p s → (specReplayEtcd p iv st s cs).viol = [] := by
+  intro cs
+  induction cs with
+  | nil => intro st s j _; exact j.clean
+  | cons c cs ih =>
+    intro st s j g
+    simp only [specReplayEtcd]
+    exact ih _ _ (je_step iv g j c) (Etcd.exec_good g c)
+
+theorem je_init (p : Etcd.Params) : JE p {} Etcd.init :=
+  ⟨fun h hh => (by cases hh), fun c hc => (by cases hc), fun k hk => (by simp [Etcd.init] at hk),
+   fun c hc => (by cases hc), rfl⟩
+
+/-- the model of the chained lock contexts never leaves a lost lock unsignalled -/
+theorem multiKey_model_meets_spec (lost : List Bool) :
+    multiKeyViol lost (Ctx.seen false lost == .live) false = [] := by
+  unfold multiKeyViol
+  have : (Ctx.seen false lost == Ctx.Seen.live && lost.any id) = false := by
+    cases ha : lost.any id with
+    | false => simp
+    | true =>
+      simp only [Bool.and_true]
+      have hcb : Ctx.callbackCtx false lost = true := by
+        have : ∀ (c : Bool) (l : List Bool), l.any id = true → l.foldl Ctx.lockCtx c = true := by
+          intro c l
+          induction l generalizing c with
+          | nil => intro h; cases h
+          | cons x xs ih =>
+            intro h
+            simp only [List.any_cons, id, Bool.or_eq_true] at h
+            simp only [List.foldl_cons]
+            rcases h with h | h
+            · have : ∀ (l : List Bool), l.foldl Ctx.lockCtx true = true := by
+                intro l; induction l with
+                | nil => rfl
+                | cons y ys ih => simp only [List.foldl_cons, Ctx.lockCtx, Bool.true_or]; exact ih
+              rw [show Ctx.lockCtx c x = true by simp [Ctx.lockCtx, h]]
+              exact this xs
+            · exact ih _ h
+        exact this false lost ha
+      unfold Ctx.seen
+      split
+      · rfl
+      · simp [hcb]
+  rw [this]; rfl
 
 end Eru.Lock.Spec
